@@ -68,7 +68,7 @@ struct App {
     bool          t_bool;
     int           t_int;
     // rOption
-    int           o_plain, o_bound, o_sparse;
+    int           o_plain, o_bound, o_sparse, o_many;
     Wave          o_enum;
     // rString
     PA_ARR(char, s_one, 1);
@@ -76,6 +76,8 @@ struct App {
     PA_ARR(char, s_eight, 8);
     PA_ARR(char, s_sixteen, 16);
     PA_ARR(char, s_roomy, 32);     // declared length 16: shorter than the member
+    PA_ARR(char, s_ptr_store, 32); // storage behind the pointer-backed string port
+    char *s_ptr;                   // rString on a char* member, declared length 16
     // rArrayI
     PA_ARR(char, aiOne, 1);
     PA_ARR(char, aiTwo, 2);
@@ -164,12 +166,14 @@ const rtosc::Ports App::ports = {
     rOption(o_bound, rOptions(sine, saw, square), rLinear(0, 2), "with range"),
     rOption(o_sparse, rOpt(1, lo) rOpt(4, mid) rOpt(9, hi), "sparse map"),
     rOption(o_enum, rOptions(sine, saw, square), rLinear(0, 2), "enum storage"),
+    rOption(o_many, rOptions(oa, ob, oc, od, oe, of, og, oh, oi, oj, ok, ol, om, on, oo, op, oq, or_, os, ot, ou, ov, ow, ox), "24 symbols: the longest list rOptions takes"),
 
     rString(s_one, 1, "capacity 1"),
     rString(s_two, 2, "capacity 2"),
     rString(s_eight, 8, "capacity 8"),
     rString(s_sixteen, 16, "capacity 16"),
     rString(s_roomy, 16, "declared length 16 in a 32-byte member"),
+    rString(s_ptr, 16, "declared length 16 on a pointer member"),
 
     rArrayI(aiOne, 1, "no range"),
     rArrayI(aiTwo, 2, rLinear(0, 127), "midi"),
@@ -262,6 +266,7 @@ typedef std::vector<std::pair<int, std::string>> OptMap;
 inline OptMap opt_colours() { return {{0, "red"}, {1, "green"}, {2, "blue"}, {3, "teal"}}; }
 inline OptMap opt_waves() { return {{0, "sine"}, {1, "saw"}, {2, "square"}}; }
 inline OptMap opt_sparse() { return {{1, "lo"}, {4, "mid"}, {9, "hi"}}; }
+inline OptMap opt_many() { OptMap m; const char *n[24] = {"oa", "ob", "oc", "od", "oe", "of", "og", "oh", "oi", "oj", "ok", "ol", "om", "on", "oo", "op", "oq", "or_", "os", "ot", "ou", "ov", "ow", "ox"}; for(int i = 0; i < 24; ++i) m.push_back({i, n[i]}); return m; }
 
 #define PA_OFF(field) offsetof(App, field)
 #define PA_SOFF(field) offsetof(Sub, field)
@@ -321,12 +326,14 @@ inline const std::vector<PortDesc> &describe()
     v.push_back({"/o_bound",  K_OPTION, ST_INT,  "0", "2", 0, 0, opt_waves(), PA_OFF(o_bound), "icS"});
     v.push_back({"/o_sparse", K_OPTION, ST_INT,  "", "", 0, 0, opt_sparse(), PA_OFF(o_sparse), "icS"});
     v.push_back({"/o_enum",   K_OPTION, ST_ENUM, "0", "2", 0, 0, opt_waves(), PA_OFF(o_enum), "icS"});
+    v.push_back({"/o_many",   K_OPTION, ST_INT,  "", "", 0, 0, opt_many(), PA_OFF(o_many), "icS"});
 
     v.push_back({"/s_one",     K_STRING, ST_STR, "", "", 0, 1, {}, PA_OFF(s_one), "s"});
     v.push_back({"/s_two",     K_STRING, ST_STR, "", "", 0, 2, {}, PA_OFF(s_two), "s"});
     v.push_back({"/s_eight",   K_STRING, ST_STR, "", "", 0, 8, {}, PA_OFF(s_eight), "s"});
     v.push_back({"/s_sixteen", K_STRING, ST_STR, "", "", 0, 16, {}, PA_OFF(s_sixteen), "s"});
     v.push_back({"/s_roomy",   K_STRING, ST_STR, "", "", 0, 16, {}, PA_OFF(s_roomy), "s"});
+    v.push_back({"/s_ptr",     K_STRING, ST_STR, "", "", 0, 16, {}, PA_OFF(s_ptr_store), "s"});
 
     v.push_back({"/aiOne",   K_ARRAYI, ST_CHAR, "", "", 1, 0, {}, PA_OFF(aiOne), "i"});
     v.push_back({"/aiTwo",   K_ARRAYI, ST_CHAR, "0", "127", 2, 0, {}, PA_OFF(aiTwo), "i"});
@@ -377,6 +384,8 @@ inline void init_sub(Sub &s)
 }
 
 #define PA_G(a, name) do { memset((a).name##_pre, PA_GUARD_BYTE, 8); memset((a).name##_post, PA_GUARD_BYTE, 8); } while(0)
+// after an App has been copied byte-wise: the pointer-backed string points into the copy again
+inline void relocate(App &a) { a.s_ptr = a.s_ptr_store; }
 inline void init_app(App &a)
 {
     a.pc = 64; a.puc = 65; a.pint = 66;
@@ -385,7 +394,9 @@ inline void init_app(App &a)
     a.pf_none = 1.5f; a.pf_midi = 64.5f; a.pf_sym = -1.25f; a.pf_neg = -3.5f; a.pf_frac = 1.125f; a.pf_min = 7.5f; a.pf_max = -7.5f;
     a.pf_dec = 0.5f; a.pd_frac = 1.125;
     a.t_bool = false; a.t_int = 1;
-    a.o_plain = 1; a.o_bound = 1; a.o_sparse = 4; a.o_enum = W_SAW;
+    a.o_plain = 1; a.o_bound = 1; a.o_sparse = 4; a.o_enum = W_SAW; a.o_many = 3;
+    PA_G(a, s_ptr_store); memset(a.s_ptr_store, '~', sizeof a.s_ptr_store); strcpy(a.s_ptr_store, "pointed"); a.s_ptr = a.s_ptr_store;
+    PA_G(a, aiSpecial); a.aiSpecial[0] = 7; a.aiSpecial[1] = 8; a.pi_special = 5; a.pf_special = 1.0f; a.pi_big24 = 12; a.pi_big31 = -9; a.pi_bigmax = 77;
     PA_G(a, s_one); PA_G(a, s_two); PA_G(a, s_eight); PA_G(a, s_sixteen); PA_G(a, s_roomy);
     a.s_one[0] = 0; strcpy(a.s_two, "i"); strcpy(a.s_eight, "init"); strcpy(a.s_sixteen, "initial value"); memset(a.s_roomy, '~', sizeof a.s_roomy); strcpy(a.s_roomy, "roomy");
     PA_G(a, aiOne); PA_G(a, aiTwo); PA_G(a, aiFive); PA_G(a, aiNeg); PA_G(a, aiFrac); PA_G(a, aiMin); PA_G(a, aiMax); PA_G(a, aiInt); PA_G(a, aiDozen);
